@@ -45,6 +45,7 @@ type ClientReq struct {
 	ResRID     string // rid of a resource response
 	ResRootErr bool   // the root of the resource response is an error entry
 	ResDenied  bool   // ... because access to it was denied
+	Optional   bool   // a response is allowed but not required (outside C07's precondition)
 }
 
 type FrameError struct {
